@@ -15,6 +15,7 @@ package p17
 
 import (
 	"fmt"
+	"os"
 	"sort"
 	"strings"
 	"testing"
@@ -28,6 +29,8 @@ import (
 )
 
 const chkM = "c17-deployment-machine"
+
+var debug = os.Getenv("VERIF_C17_DEBUG") != ""
 
 type Action struct {
 	K  string  `json:"k"`
@@ -152,10 +155,11 @@ func (m *machine) inCreateLowerBoundClass(vs []rsView) bool {
 	return total > 0 && refNewRSAllowedMax(m.n, m.limit(), m.surge(), 0, total) == 0
 }
 
-// inPausedShrinkClass: a paused Deployment (no scale event pending) whose ReplicaSets hold more
-// than spec.replicas pods in total (surge pods of an interrupted rollout) while at least two of
-// them are active: the controller's scale() then shrinks the total to spec.replicas at once.
-func (m *machine) inPausedShrinkClass(vs []rsView) bool {
+// inPausedRebalanceClass: a paused Deployment (no scale event pending) whose ReplicaSets do not
+// hold exactly spec.replicas pods in total (surge pods, or pods already taken down, of an
+// interrupted rollout) while at least two of them are active: the controller's scale() then
+// moves the total to spec.replicas at once, looking neither at the partition nor at availability.
+func (m *machine) inPausedRebalanceClass(vs []rsView) bool {
 	if !m.paused || m.inFlight {
 		return false
 	}
@@ -166,7 +170,23 @@ func (m *machine) inPausedShrinkClass(vs []rsView) bool {
 			active++
 		}
 	}
-	return active >= 2 && total > m.n
+	return active >= 2 && total != m.n
+}
+
+// staleStampStuck: exactly one ReplicaSet is active, it is an old one, it already has the size the
+// Deployment asks for, but it was last written for a different Deployment size. (The controller
+// then sees a "scaling event" on every sync, finds nothing to scale and never rolls.)
+func staleStampStuck(vs []rsView, n int, image string) bool {
+	var act []rsView
+	for _, v := range vs {
+		if v.Spec > 0 {
+			act = append(act, v)
+		}
+	}
+	if len(act) != 1 || act[0].Image == image || int(act[0].Spec) != n {
+		return false
+	}
+	return act[0].Desired >= 0 && act[0].Desired != n
 }
 
 // ---- actions -----------------------------------------------------------------------------------
@@ -303,15 +323,41 @@ func lastN(s []string, n int) []string {
 func (m *machine) doSync() {
 	m.syncs++
 	before := m.w.views()
+	if debug {
+		defer func() {
+			fmt.Printf("DEBUG sync#%d [%s]\n   before: %s\n   after:  %s\n   trace: %s\n", m.syncs, m.describe(), fmtViews(before), fmtViews(m.w.views()), strings.Join(lastN(m.trace, 4), " | "))
+		}()
+	}
 	wasInFlight := m.inFlight
 	staleAtStart := false
+	oldActive, oldUnhealthy, newActive := 0, false, false
 	for _, v := range before {
 		if v.A > v.Spec {
 			staleAtStart = true
 		}
+		if v.Spec > 0 && v.Image != m.image {
+			oldActive++
+			if v.A < v.Spec {
+				oldUnhealthy = true
+			}
+		}
+		if v.Spec > 0 && v.Image == m.image {
+			newActive = true
+		}
+	}
+	if !m.paused && !wasInFlight {
+		if oldActive >= 2 {
+			m.cls["sync-rolling-two-old-active"] = true
+		}
+		if oldActive >= 1 && newActive {
+			m.cls["sync-rolling-old-and-new-active"] = true
+			if oldUnhealthy {
+				m.cls["sync-rolling-old-unhealthy"] = true
+			}
+		}
 	}
 	excuseCreate := m.excused[sigCreate] && m.inCreateLowerBoundClass(before)
-	excusePaused := m.excused[sigPausedAvail] && m.inPausedShrinkClass(before)
+	excusePaused := m.inPausedRebalanceClass(before)
 	if m.paused {
 		m.cls["sync-paused"] = true
 	}
@@ -345,12 +391,7 @@ func (m *machine) doSync() {
 	}
 }
 
-const (
-	sigCreate      = "new-rs-created-beyond-partition-or-surge"
-	sigPausedAvail = "paused-old-scale-down-breaks-min-available"
-)
-
-func (m *machine) checkWrites(writes []rsWrite, wasInFlight, stale, excuseCreate, excusePaused bool) {
+func (m *machine) checkWrites(writes []rsWrite, wasInFlight, stale, excuseCreate, inPausedClass bool) {
 	n, L, S, U := m.n, m.limit(), m.surge(), m.unav()
 	pfx := ""
 	if m.paused {
@@ -411,9 +452,22 @@ func (m *machine) checkWrites(writes []rsWrite, wasInFlight, stale, excuseCreate
 			continue
 		}
 		ctxs := fmt.Sprintf("write %s %d->%d (create=%v); ReplicaSets before: %s", wr.Image, wr.Old, wr.New, wr.Create, fmtViews(wr.Before))
+		// violated reports a broken inequality; inside the paused-rebalance input class all four
+		// inequalities share one signature (one root cause, one listed finding).
+		violated := func(sig, format string, args ...any) {
+			if inPausedClass {
+				if m.excused[sigPaused] {
+					vlib.Excluded(chkM, sigPaused)
+					m.cls["excused-paused-rebalance"] = true
+					return
+				}
+				m.fail(sigPaused, "["+sig+"] "+format+"; "+ctxs, args...)
+			}
+			m.fail(pfx+sig, format+"; "+ctxs, args...)
+		}
 		switch {
 		case isNew && d > 0 && wr.Create:
-			if int(wr.New) > L || totalAfter > n+S {
+			if (int(wr.New) > L && oldSum > 0) || totalAfter > n+S { // oldSum == 0: see below
 				if excuseCreate && wr.New == 1 {
 					vlib.Excluded(chkM, sigCreate)
 					m.cls["excused-create-lower-bound"] = true
@@ -422,23 +476,21 @@ func (m *machine) checkWrites(writes []rsWrite, wasInFlight, stale, excuseCreate
 				m.fail(sigCreate, "new ReplicaSet created with %d replicas: partition allows %d, replicas+maxSurge=%d, total after=%d; %s", wr.New, L, n+S, totalAfter, ctxs)
 			}
 		case isNew && d > 0:
-			if int(wr.New) > L {
-				m.fail(pfx+"new-rs-above-partition", "new ReplicaSet grown to %d but the partition allows %d; %s", wr.New, L, ctxs)
+			// With no old-revision pod left there is nothing the partition could keep back (missing
+			// pods can only be created from the current template); that state is reachable only
+			// through a partition lowering, which the property does not quantify over.
+			if int(wr.New) > L && oldSum > 0 {
+				violated("new-rs-above-partition", "new ReplicaSet grown to %d but the partition allows %d", wr.New, L)
 			}
 			if totalAfter > n+S {
-				m.fail(pfx+"new-rs-scale-up-exceeds-surge", "new ReplicaSet grown to %d: total %d > replicas+maxSurge=%d; %s", wr.New, totalAfter, n+S, ctxs)
+				violated("new-rs-scale-up-exceeds-surge", "new ReplicaSet grown to %d: total %d > replicas+maxSurge=%d", wr.New, totalAfter, n+S)
 			}
 		case !isNew && d < 0:
 			if reserve := n - max(L, curNew); oldSumAfter < reserve {
-				m.fail(pfx+"old-rs-below-partition-reserve", "old ReplicaSets shrunk to %d in total but the partition reserves %d for them (new=%d); %s", oldSumAfter, reserve, curNew, ctxs)
+				violated("old-rs-below-partition-reserve", "old ReplicaSets shrunk to %d in total but the partition reserves %d for them (new=%d)", oldSumAfter, reserve, curNew)
 			}
 			if !stale && availAfter < availBefore && availAfter < n-U {
-				if excusePaused {
-					vlib.Excluded(chkM, sigPausedAvail)
-					m.cls["excused-paused-shrink"] = true
-					continue
-				}
-				m.fail(pfx+"old-scale-down-breaks-min-available", "scale-down removes available old pods: %d -> %d available, minimum is replicas-maxUnavailable=%d; %s", availBefore, availAfter, n-U, ctxs)
+				violated("old-scale-down-breaks-min-available", "scale-down removes available old pods: %d -> %d available, minimum is replicas-maxUnavailable=%d", availBefore, availAfter, n-U)
 			}
 		}
 	}
@@ -475,7 +527,19 @@ func (m *machine) converge() {
 		}
 	}
 	_, vs := done()
+	if staleStampStuck(vs, m.n, m.image) {
+		m.fail(sigStuck, "partition %s covers all %d replicas but the controller never rolls: the only active ReplicaSet is an old one whose size already equals spec.replicas while it was last written for a Deployment of %d replicas, so every sync is taken for a scaling event with nothing to scale; after %d sync+settle rounds: %s", m.partition, m.n, activeDesired(vs), bound, fmtViews(vs))
+	}
 	m.fail("no-convergence", "partition %s covers all %d replicas but after %d sync+settle rounds: %s", m.partition, m.n, bound, fmtViews(vs))
+}
+
+func activeDesired(vs []rsView) int {
+	for _, v := range vs {
+		if v.Spec > 0 {
+			return v.Desired
+		}
+	}
+	return -1
 }
 
 // ---- generation ----------------------------------------------------------------------------------
@@ -608,6 +672,10 @@ func (m *machine) actions() map[string]func(*rapid.T) {
 			if n == m.n {
 				t.Skip("same size")
 			}
+			if m.excused[sigStuck] && staleStampStuck(m.w.views(), n, m.image) {
+				vlib.Excluded(chkM, sigStuck)
+				t.Skip("steered away from listed finding " + sigStuck)
+			}
 			m.cls["scale"] = true
 			m.do(Action{K: "scale", N: n})
 		},
@@ -619,6 +687,10 @@ func (m *machine) actions() map[string]func(*rapid.T) {
 				}
 			}
 			im := rapid.SampledFrom(cand).Draw(t, "image")
+			if m.excused[sigStuck] && staleStampStuck(m.w.views(), m.n, im) {
+				vlib.Excluded(chkM, sigStuck)
+				t.Skip("steered away from listed finding " + sigStuck)
+			}
 			if m.w.rsByImage(im) != nil {
 				m.cls["template-rollback"] = true
 			} else {
@@ -666,16 +738,9 @@ func (m *machine) finish() {
 	if len(vs) >= 3 {
 		m.cls["three-replicasets"] = true
 	}
-	active := 0
-	for _, v := range vs {
-		if v.Spec > 0 {
-			active++
-		}
-	}
 	if m.c.Converge != "" {
 		m.converge()
 	}
-	_ = active
 }
 
 func (m *machine) classes() []string {
